@@ -112,6 +112,8 @@ func (g *gen) printSortFunc(typ *types.Slice) error {
 		switch ttyp.Kind() {
 		case types.Complex64, types.Complex128, types.Bool:
 			p.P(g.sortPkg() + ".Slice(list, func(i, j int) bool { return " + g.compare.GetFuncName(etyp, etyp) + "(list[i], list[j]) < 0 })")
+		case types.UnsafePointer:
+			return fmt.Errorf("unsupported compare type: %s", g.TypeString(typ))
 		default:
 			p.P(g.sortPkg() + ".Slice(list, func(i, j int) bool { return list[i] < list[j] })")
 		}
